@@ -28,6 +28,14 @@ PROPERTIES = {
         explanation="acceptance condition taken from the property statement (accept(o, len)), proved as an iff on the real functions",
         assumptions=["text length <= isize::MAX (Rust allocation limit)"],
     ),
+    'C03': dict(
+        units=['u_store'],
+        level_text="Deductive proof (Verus/Z3) of the generic store layer, once for every store type: StoreFor::resolve_id returns exactly the handle the id map holds for that string, or the number of a temporary id of the right kind that fits the handle type; get/has/get_mut succeed exactly for live items; remove tombstones the item, drops its id from the id map and preserves the id-map representation invariant (every id points at the live item carrying it and vice versa); insert (C14) either fails without changing the store or appends exactly one item. No lookup panics, whatever the string.",
+        level_note="Trusted: HashMap<String,H> modelled as a map (VxStrMap), str::starts_with, Option::map(to_string), resolve_temp_id's contract (bounded Kani stand-in), callback contracts of StoreCallbacks (proved for the dataset implementations in u_dataset, assumed for AnnotationStore), 64-bit usize. Compaction (reindex) is covered separately.",
+        design_ref='DESIGN.md §7.3',
+        explanation="representation invariant idmap_wf as pre/postcondition of every mutating operation of the generic StoreFor trait",
+        assumptions=["accessor contracts (store/store_mut/idmap/idmap_mut are plain field accessors) and callback contracts hold for each implementing type"],
+    ),
 }
 
 NOT_APPLICABLE = {
